@@ -5,31 +5,699 @@
 import PjVerif.Spec.Graph
 namespace Pj
 
-theorem step_n (s : G) (op : Op) : (step s op).1.n = s.n := by
-  sorry
+/-! ### list helpers -/
+
+private theorem mapM_some_inv' {β γ : Type} (g : β → Option γ) (l : List β) (r : List γ)
+    (h : l.mapM g = some r) : ∀ b ∈ r, ∃ a ∈ l, g a = some b := by
+  induction l generalizing r with
+  | nil =>
+    simp only [List.mapM_nil, pure, Option.some.injEq] at h
+    subst h; intro b hb; cases hb
+  | cons x xs ih =>
+    simp only [List.mapM_cons, bind, pure, Option.bind_eq_some_iff, Option.some.injEq] at h
+    obtain ⟨b, hb, bs, hbs, rfl⟩ := h
+    intro b' hb'
+    rcases List.mem_cons.mp hb' with rfl | hb'
+    · exact ⟨x, List.mem_cons_self, hb⟩
+    · obtain ⟨a, ha, hg⟩ := ih bs hbs b' hb'
+      exact ⟨a, List.mem_cons_of_mem _ ha, hg⟩
+
+private theorem descF_lt (next : Uid → List Uid) (n : Nat) (hn : ∀ u c, c ∈ next u → c < n)
+    (f : Nat) (t : Uid) (l : List Uid) (h : descF next f t = some l) : ∀ x ∈ l, x < n := by
+  induction f generalizing t l with
+  | zero => simp [descF] at h
+  | succ f ih =>
+    intro x hx
+    simp only [descF, Option.map_eq_some_iff] at h
+    obtain ⟨ll, hll, rfl⟩ := h
+    obtain ⟨b, hb, hxb⟩ := List.mem_flatten.mp hx
+    obtain ⟨c, hc, hg⟩ := mapM_some_inv' _ _ _ hll b hb
+    simp only [Option.map_eq_some_iff] at hg
+    obtain ⟨r', hr', rfl⟩ := hg
+    rcases List.mem_cons.mp hxb with rfl | hxr
+    · exact hn _ _ hc
+    · exact ih c r' hr' x hxr
+
+private theorem subtreeF_lt (s : G) (hb : Bounded s) (f : Nat) (t : Uid) (ht : t < s.n) (l : List Uid)
+    (h : subtreeF s.children f t = some l) : ∀ x ∈ l, x < s.n := by
+  simp only [subtreeF, Option.map_eq_some_iff] at h
+  obtain ⟨r, hr, rfl⟩ := h
+  intro x hx
+  rcases List.mem_cons.mp hx with rfl | hx
+  · exact ht
+  · exact descF_lt s.children s.n (fun u c hc => (hb.children u c hc).2) f t r hr x hx
+
+/-! ### field updates -/
+
+private theorem bounded_updChildren (s : G) (hb : Bounded s) (u : Uid) (l : List Uid) (hu : l ≠ [] → u < s.n)
+    (hl : ∀ c ∈ l, c < s.n) : Bounded { s with children := upd s.children u l } := by
+  refine ⟨hb.parent, ?_, hb.preds, hb.succs, hb.owner⟩
+  intro v c hc
+  simp only [upd] at hc
+  split at hc
+  · subst_vars
+    exact ⟨hu (List.ne_nil_of_mem hc), hl c hc⟩
+  · exact hb.children v c hc
+
+private theorem bounded_updParent (s : G) (hb : Bounded s) (t : Uid) (p : Option Uid) (ht : t < s.n)
+    (hp : ∀ q, p = some q → q < s.n) : Bounded { s with parent := upd s.parent t p } := by
+  refine ⟨?_, hb.children, hb.preds, hb.succs, hb.owner⟩
+  intro v c hc
+  simp only [upd] at hc
+  split at hc
+  next hv =>
+    rw [hv]
+    exact ⟨ht, hp c hc⟩
+  · exact hb.parent v c hc
+
+private theorem setOwners_Bounded (s : G) (hb : Bounded s) (ts : List Uid) (w : Option Uid)
+    (hw : ∀ x, w = some x → x < s.n ∧ ∀ u ∈ ts, u < s.n) : Bounded (setOwners s ts w) := by
+  refine ⟨hb.parent, hb.children, hb.preds, hb.succs, ?_⟩
+  intro u x hx
+  simp only [setOwners] at hx
+  by_cases hc : ts.contains u = true
+  · rw [if_pos hc] at hx
+    obtain ⟨h1, h2⟩ := hw x hx
+    exact ⟨h2 u (by simpa using hc), h1⟩
+  · rw [if_neg hc] at hx
+    exact hb.owner u x hx
+
+/-! ### the parent setter -/
+
+private theorem detachOld_n (s : G) (t : Uid) : (detachOld s t).n = s.n := by
+  unfold detachOld
+  split
+  · split <;> rfl
+  · rfl
+
+private theorem detachOld_Bounded (s : G) (t : Uid) (hb : Bounded s) : Bounded (detachOld s t) := by
+  unfold detachOld
+  split
+  · split
+    next q _ hc =>
+      have hm : t ∈ s.children q := by simpa using hc
+      exact bounded_updChildren s hb q _ (fun _ => (hb.children q t hm).1)
+        (fun c hc => (hb.children q c (List.mem_of_mem_erase hc)).2)
+    · exact hb
+  · exact hb
+
+private theorem mutParentSome_n (s : G) (t p : Uid) : (mutParentSome s t p).1.n = s.n := by
+  unfold mutParentSome
+  split
+  · rfl
+  · simp only
+    split <;> split <;> simp [setOwners, detachOld_n]
+
+private theorem mutParentSome_Bounded (s : G) (t p : Uid) (hb : Bounded s) (ht : t < s.n) (hp : p < s.n) :
+    Bounded (mutParentSome s t p).1 := by
+  unfold mutParentSome
+  split
+  · exact hb
+  next sub hsub =>
+    have hsubn := subtreeF_lt s hb _ t ht sub hsub
+    have h1 : Bounded (detachOld s t) := detachOld_Bounded s t hb
+    have h2 : Bounded { detachOld s t with parent := upd (detachOld s t).parent t (some p) } :=
+      bounded_updParent _ h1 t (some p) (by rw [detachOld_n]; exact ht)
+        (by intro q hq; cases hq; rw [detachOld_n]; exact hp)
+    have h3 : ∀ s3 : G, Bounded s3 → s3.n = s.n →
+        Bounded (if (s3.children p).contains t then s3
+          else { s3 with children := upd s3.children p (s3.children p ++ [t]) }) := by
+      intro s3 hb3 hn3
+      split
+      · exact hb3
+      · refine bounded_updChildren s3 hb3 p _ (fun _ => by rw [hn3]; exact hp) ?_
+        intro c hc
+        rcases List.mem_append.mp hc with hc | hc
+        · exact (hb3.children p c hc).2
+        · simp only [List.mem_singleton] at hc
+          subst hc; rw [hn3]; exact ht
+    simp only
+    split
+    · exact h3 _ h2 (detachOld_n s t)
+    next w hw =>
+      refine h3 _ (setOwners_Bounded _ h2 sub (some w) ?_) (by simp [setOwners, detachOld_n])
+      intro x hx
+      cases hx
+      refine ⟨(h2.owner p w hw).2, ?_⟩
+      intro u hu
+      show u < (detachOld s t).n
+      rw [detachOld_n]; exact hsubn u hu
+
+private theorem setParentSome_n (s : G) (t p : Uid) : (setParentSome s t p).1.n = s.n := by
+  unfold setParentSome
+  split
+  · rfl
+  · exact mutParentSome_n s t p
+
+private theorem setParentSome_Bounded (s : G) (t p : Uid) (hb : Bounded s) (ht : t < s.n) (hp : p < s.n) :
+    Bounded (setParentSome s t p).1 := by
+  unfold setParentSome
+  split
+  · exact hb
+  · exact mutParentSome_Bounded s t p hb ht hp
+
+private theorem setParentNone_n (s : G) (t : Uid) : (setParentNone s t).1.n = s.n := by
+  unfold setParentNone
+  split
+  · exact setParentSome_n s t _
+  · simp [detachOld_n]
+
+private theorem setParentNone_Bounded (s : G) (t : Uid) (hb : Bounded s) (ht : t < s.n) :
+    Bounded (setParentNone s t).1 := by
+  unfold setParentNone
+  split
+  next w hw => exact setParentSome_Bounded s t w hb ht (hb.owner t w hw).2
+  · exact bounded_updParent _ (detachOld_Bounded s t hb) t none (by rw [detachOld_n]; exact ht)
+      (by intro q hq; cases hq)
+
+theorem setParent_n (s : G) (t : Uid) (p : Option Uid) : (setParent s t p).1.n = s.n := by
+  unfold setParent
+  split
+  · exact setParentSome_n s t _
+  · exact setParentNone_n s t
 
 theorem setParent_Bounded (s : G) (t : Uid) (p : Option Uid) (hb : Bounded s) (ht : t < s.n)
     (hp : ∀ q, p = some q → q < s.n) : Bounded (setParent s t p).1 := by
-  sorry
+  unfold setParent
+  split
+  next q => exact setParentSome_Bounded s t q hb ht (hp q rfl)
+  · exact setParentNone_Bounded s t hb ht
+
+/-! ### the children setter -/
+
+private theorem releaseChildren_n (s : G) (h : Uid) (l : List Uid) : (releaseChildren s h l).1.n = s.n := by
+  unfold releaseChildren
+  simp only
+  split <;> simp [setOwners]
+
+private theorem releaseChildren_Bounded (s : G) (h : Uid) (l : List Uid) (hb : Bounded s) :
+    Bounded (releaseChildren s h l).1 := by
+  unfold releaseChildren
+  simp only
+  split
+  · exact hb
+  next subs _ =>
+    have h1 : Bounded { s with parent := fun x => if (s.children h).contains x then none else s.parent x } := by
+      refine ⟨?_, hb.children, hb.preds, hb.succs, hb.owner⟩
+      intro u p hp
+      simp only at hp
+      split at hp
+      · cases hp
+      · exact hb.parent u p hp
+    have h2 := setOwners_Bounded _ h1 subs.flatten none (by intro x hx; cases hx)
+    exact bounded_updChildren _ h2 h [] (fun hne => absurd rfl hne) (by intro c hc; cases hc)
+
+private theorem foldSetParent_n (l : List Uid) (h : Uid) : ∀ s : G, (foldSetParent s l h).1.n = s.n := by
+  induction l with
+  | nil => intro s; rfl
+  | cons v vs ih =>
+    intro s
+    unfold foldSetParent
+    have hn := setParent_n s v (some h)
+    split
+    next s' e heq => rw [heq] at hn; exact hn
+    next s' heq => rw [heq] at hn; rw [ih s']; exact hn
+
+private theorem foldSetParent_Bounded (l : List Uid) (h : Uid) :
+    ∀ s : G, Bounded s → h < s.n → (∀ v ∈ l, v < s.n) → Bounded (foldSetParent s l h).1 := by
+  induction l with
+  | nil => intro s hb _ _; exact hb
+  | cons v vs ih =>
+    intro s hb hh hl
+    unfold foldSetParent
+    have hn := setParent_n s v (some h)
+    have hb' := setParent_Bounded s v (some h) hb (hl v List.mem_cons_self)
+      (by intro q hq; cases hq; exact hh)
+    split
+    next s' e heq => rw [heq] at hb'; exact hb'
+    next s' heq =>
+      rw [heq] at hb' hn
+      exact ih s' hb' (by rw [hn]; exact hh)
+        (by intro u hu; rw [hn]; exact hl u (List.mem_cons_of_mem _ hu))
+
+theorem setChildren_n (s : G) (h : Uid) (l : List Uid) : (setChildren s h l).1.n = s.n := by
+  unfold setChildren
+  split
+  · rfl
+  · have hn := releaseChildren_n s h l
+    split
+    next s1 e heq => rw [heq] at hn; exact hn
+    next s1 heq => rw [heq] at hn; rw [foldSetParent_n]; exact hn
 
 theorem setChildren_Bounded (s : G) (h : Uid) (l : List Uid) (hb : Bounded s) (hh : h < s.n)
     (hl : ∀ v ∈ l, v < s.n) : Bounded (setChildren s h l).1 := by
-  sorry
+  unfold setChildren
+  split
+  · exact hb
+  · have hn := releaseChildren_n s h l
+    have hb' := releaseChildren_Bounded s h l hb
+    split
+    next s1 e heq => rw [heq] at hb'; exact hb'
+    next s1 heq =>
+      rw [heq] at hn hb'
+      exact foldSetParent_Bounded l h s1 hb' (by rw [hn]; exact hh)
+        (by intro v hv; rw [hn]; exact hl v hv)
+
+/-! ### links -/
+
+theorem setPreds_n (s : G) (t : Uid) (l : List Uid) : (setPreds s t l).1.n = s.n := by
+  unfold setPreds
+  split <;> simp [mutPreds]
+
+theorem setSuccs_n (s : G) (t : Uid) (l : List Uid) : (setSuccs s t l).1.n = s.n := by
+  unfold setSuccs
+  split <;> simp [mutSuccs]
+
+private theorem mem_link_upd (S : List Uid) (t v : Uid) (C : Prop) [Decidable C]
+    (h : v ∈ if C then S ++ [t] else S) : v ∈ S ∨ (C ∧ v = t) := by
+  split at h
+  next hc =>
+    rcases List.mem_append.mp h with h | h
+    · exact Or.inl h
+    · exact Or.inr ⟨hc, by simpa using h⟩
+  · exact Or.inl h
+
+private theorem mem_ite_filter (l : List Uid) (p : Uid → Bool) (c : Bool) (v : Uid)
+    (h : v ∈ if c = true then l.filter p else l) : v ∈ l := by
+  split at h
+  · exact (List.mem_filter.mp h).1
+  · exact h
+
+private theorem mutPreds_Bounded (s : G) (t : Uid) (l : List Uid) (hb : Bounded s) (ht : t < s.n)
+    (hl : ∀ v ∈ l, v < s.n) : Bounded (mutPreds s t l) := by
+  refine ⟨hb.parent, hb.children, ?_, ?_, hb.owner⟩
+  · intro u v hv
+    simp only [mutPreds, upd] at hv
+    split at hv
+    · subst_vars; exact ⟨ht, hl v hv⟩
+    · exact hb.preds u v hv
+  · intro u v hv
+    rcases mem_link_upd _ t v _ hv with h | ⟨hc, rfl⟩
+    · exact hb.succs u v (mem_ite_filter _ _ _ v h)
+    · exact ⟨hl u (by simpa using hc.1), ht⟩
+
+private theorem mutSuccs_Bounded (s : G) (t : Uid) (l : List Uid) (hb : Bounded s) (ht : t < s.n)
+    (hl : ∀ v ∈ l, v < s.n) : Bounded (mutSuccs s t l) := by
+  refine ⟨hb.parent, hb.children, ?_, ?_, hb.owner⟩
+  · intro u v hv
+    rcases mem_link_upd _ t v _ hv with h | ⟨hc, rfl⟩
+    · exact hb.preds u v (mem_ite_filter _ _ _ v h)
+    · exact ⟨hl u (by simpa using hc.1), ht⟩
+  · intro u v hv
+    simp only [mutSuccs, upd] at hv
+    split at hv
+    · subst_vars; exact ⟨ht, hl v hv⟩
+    · exact hb.succs u v hv
 
 theorem setPreds_Bounded (s : G) (t : Uid) (l : List Uid) (hb : Bounded s) (ht : t < s.n)
     (hl : ∀ v ∈ l, v < s.n) : Bounded (setPreds s t l).1 := by
-  sorry
+  unfold setPreds
+  split
+  · exact hb
+  · exact mutPreds_Bounded s t l hb ht hl
 
 theorem setSuccs_Bounded (s : G) (t : Uid) (l : List Uid) (hb : Bounded s) (ht : t < s.n)
     (hl : ∀ v ∈ l, v < s.n) : Bounded (setSuccs s t l).1 := by
-  sorry
+  unfold setSuccs
+  split
+  · exact hb
+  · exact mutSuccs_Bounded s t l hb ht hl
+
+/-! ### list façades -/
+
+private theorem mem_pyInsert (l : List Uid) (i : Int) (x c : Uid) (h : c ∈ pyInsert l i x) : c ∈ l ∨ c = x := by
+  unfold pyInsert at h
+  simp only [List.mem_append, List.mem_singleton] at h
+  rcases h with (h | h) | h
+  · exact Or.inl (List.mem_of_mem_take h)
+  · exact Or.inr h
+  · exact Or.inl (List.mem_of_mem_drop h)
+
+private theorem mem_moveOne (l : List Uid) (task : Uid) (b a : Option Uid) (c : Uid)
+    (h : c ∈ moveOne l task b a) : c ∈ l ∨ c = task := by
+  unfold moveOne at h
+  simp only at h
+  split at h
+  · simp only [List.mem_append, List.mem_singleton] at h
+    rcases h with (h | h) | h
+    · exact Or.inl (List.mem_of_mem_erase (List.mem_of_mem_take h))
+    · exact Or.inr h
+    · exact Or.inl (List.mem_of_mem_erase (List.mem_of_mem_drop h))
+  · simp only [List.mem_append, List.mem_singleton] at h
+    rcases h with (h | h) | h
+    · exact Or.inl (List.mem_of_mem_erase (List.mem_of_mem_take h))
+    · exact Or.inr h
+    · exact Or.inl (List.mem_of_mem_erase (List.mem_of_mem_drop h))
+  · exact Or.inl (List.mem_of_mem_erase h)
+
+private theorem mem_foldl_moveOne (ts : List Uid) (b a : Option Uid) :
+    ∀ (l : List Uid) (c : Uid), c ∈ ts.foldl (fun acc t => moveOne acc t b a) l → c ∈ l ∨ c ∈ ts := by
+  induction ts with
+  | nil => intro l c h; exact Or.inl h
+  | cons t ts ih =>
+    intro l c h
+    simp only [List.foldl_cons] at h
+    rcases ih _ c h with h | h
+    · rcases mem_moveOne l t b a c h with h | h
+      · exact Or.inl h
+      · exact Or.inr (h ▸ List.mem_cons_self)
+    · exact Or.inr (List.mem_cons_of_mem _ h)
+
+private theorem mem_reorderLoop (s : G) (l : List Uid) (ids : List Int) :
+    ∀ (new rest r : List Uid), reorderLoop s l ids new rest = .ok r → ∀ c ∈ r, c ∈ new ++ rest := by
+  induction ids with
+  | nil =>
+    intro new rest r h c hc
+    simp only [reorderLoop, pure, Except.pure, Except.ok.injEq] at h
+    subst h; exact hc
+  | cons i ids ih =>
+    intro new rest r h c hc
+    unfold reorderLoop at h
+    split at h
+    · cases h
+    · split at h
+      · have := ih _ _ r h c hc
+        simp only [List.mem_append, List.mem_singleton] at this ⊢
+        rcases this with (h1 | h1) | h1
+        · exact Or.inl h1
+        · subst h1; exact Or.inr (by simpa using ‹rest.contains _ = true›)
+        · exact Or.inr (List.mem_of_mem_erase h1)
+      · cases h
+
+theorem chMove_n (s : G) (h : Uid) (ts : List Uid) (b a : Option Uid) : (chMove s h ts b a).1.n = s.n := by
+  unfold chMove
+  simp only
+  repeat' split
+  all_goals rfl
+
+private theorem chMove_Bounded (s : G) (h : Uid) (ts : List Uid) (b a : Option Uid) (hb : Bounded s)
+    (hh : h < s.n) (hts : ∀ v ∈ ts, v < s.n) : Bounded (chMove s h ts b a).1 := by
+  unfold chMove
+  simp only
+  repeat' split
+  all_goals first
+    | exact hb
+    | (refine bounded_updChildren s hb h _ (fun _ => hh) ?_
+       intro c hc
+       rcases mem_foldl_moveOne ts _ _ _ c hc with hc | hc
+       · exact (hb.children h c hc).2
+       · exact hts c hc)
+
+theorem chSort_n (s : G) (h : Uid) (key : Uid → Int) (rev : Bool) : (chSort s h key rev).1.n = s.n := rfl
+
+private theorem chSort_Bounded (s : G) (h : Uid) (key : Uid → Int) (rev : Bool) (hb : Bounded s) (hh : h < s.n) :
+    Bounded (chSort s h key rev).1 := by
+  unfold chSort
+  refine bounded_updChildren s hb h _ (fun _ => hh) ?_
+  intro c hc
+  unfold sortBy at hc
+  split at hc
+  · exact (hb.children h c (List.mem_mergeSort.mp hc)).2
+  · exact (hb.children h c (List.mem_mergeSort.mp hc)).2
+
+theorem chReorder_n (s : G) (h : Uid) (ids : List Int) : (chReorder s h ids).1.n = s.n := by
+  unfold chReorder
+  split <;> rfl
+
+private theorem chReorder_Bounded (s : G) (h : Uid) (ids : List Int) (hb : Bounded s) (hh : h < s.n) :
+    Bounded (chReorder s h ids).1 := by
+  unfold chReorder
+  split
+  · exact hb
+  next l heq =>
+    refine bounded_updChildren s hb h _ (fun _ => hh) ?_
+    intro c hc
+    have := mem_reorderLoop s _ ids _ _ l heq c hc
+    simp only [List.nil_append] at this
+    exact (hb.children h c this).2
+
+theorem chRemove_n (s : G) (h t : Uid) : (chRemove s h t).1.n = s.n := by
+  unfold chRemove
+  split
+  · exact setChildren_n s h _
+  · rfl
+
+/-- needs no range hypothesis: the operation only acts when `t` is listed under `h` -/
+private theorem chRemove_Bounded (s : G) (h t : Uid) (hb : Bounded s) : Bounded (chRemove s h t).1 := by
+  unfold chRemove
+  split
+  next hc =>
+    have hm : t ∈ s.children h := by simpa using hc
+    exact setChildren_Bounded s h _ hb (hb.children h t hm).1
+      (fun v hv => (hb.children h v (List.mem_filter.mp hv).1).2)
+  · exact hb
+
+private theorem chInsert_Bounded (s : G) (h : Uid) (i : Int) (t : Uid) (hb : Bounded s) (hh : h < s.n)
+    (ht : t < s.n) : Bounded (chInsert s h i t).1 := by
+  unfold chInsert
+  refine setChildren_Bounded s h _ hb hh ?_
+  intro v hv
+  rcases mem_pyInsert _ i t v hv with hv | hv
+  · exact (hb.children h v (List.mem_filter.mp hv).1).2
+  · subst hv; exact ht
+
+/-! ### iteration -/
+
+private theorem forEach_inv (P : G → Prop) (f : G → Uid → G × Option Err) (ts : List Uid) :
+    ∀ s : G, P s → (∀ s t, t ∈ ts → P s → P (f s t).1) → P (forEach f s ts).1 := by
+  induction ts with
+  | nil => intro s hs _; exact hs
+  | cons t ts ih =>
+    intro s hs hf
+    unfold forEach
+    have h1 := hf s t List.mem_cons_self hs
+    split
+    next s' e heq => rw [heq] at h1; exact h1
+    next s' heq =>
+      rw [heq] at h1
+      exact ih s' h1 (fun s t ht => hf s t (List.mem_cons_of_mem _ ht))
+
+private theorem removeRec_inv (P : G → Prop) (t : Uid) (hP : ∀ s cur, P s → P (chRemove s cur t).1) :
+    ∀ (f : Nat) (s : G) (cur : Uid) (r : G × Option Err × Bool), P s → removeRec t f s cur = some r → P r.1 := by
+  intro f
+  induction f with
+  | zero => intro s cur r _ h; simp [removeRec] at h
+  | succ f ih =>
+    intro s cur r hs h
+    rw [removeRec] at h
+    split at h
+    · simp only [Option.some.injEq] at h
+      subst h
+      exact hP s cur hs
+    · have hgo : ∀ (cs : List Uid) (r : G × Option Err × Bool), removeRec.go t f s cs = some r → P r.1 := by
+        intro cs
+        induction cs with
+        | nil =>
+          intro r h
+          rw [removeRec.go] at h
+          simp only [Option.some.injEq] at h
+          subst h; exact hs
+        | cons c cs ihc =>
+          intro r h
+          rw [removeRec.go] at h
+          split at h
+          · cases h
+          next s' e b heq =>
+            simp only [Option.some.injEq] at h
+            subst h
+            exact ih s c _ hs heq
+          next s' heq =>
+            simp only [Option.some.injEq] at h
+            subst h
+            exact ih s c _ hs heq
+          · exact ihc r h
+      exact hgo _ r h
+
+private theorem wbsRemove_inv (P : G → Prop) (t : Uid) (hP : ∀ s cur, P s → P (chRemove s cur t).1)
+    (s : G) (w : Uid) (hs : P s) : P (wbsRemove s w t).1 := by
+  unfold wbsRemove
+  split
+  · exact hs
+  next s' e b heq => exact removeRec_inv P t hP _ s w _ hs heq
+
+theorem wbsRemove_n (s : G) (w t : Uid) : (wbsRemove s w t).1.n = s.n :=
+  wbsRemove_inv (fun s' => s'.n = s.n) t (fun s' cur h => by rw [chRemove_n]; exact h) s w rfl
+
+private theorem wbsRemove_Bounded (s : G) (w t : Uid) (hb : Bounded s) : Bounded (wbsRemove s w t).1 :=
+  wbsRemove_inv Bounded t (fun s' cur h => chRemove_Bounded s' cur t h) s w hb
+
+/-! ### `step` -/
+
+theorem step_n (s : G) (op : Op) : (step s op).1.n = s.n := by
+  cases op with
+  | setParent t p => exact setParent_n s t p
+  | setChildren h l => exact setChildren_n s h l
+  | chAppend h t => exact setParent_n s t (some h)
+  | chRemove h t => exact chRemove_n s h t
+  | chInsert h i t => exact setChildren_n s h _
+  | chMove h ts b a => exact chMove_n s h ts b a
+  | chSort h keys rev => rfl
+  | chReorder h ids => exact chReorder_n s h ids
+  | setPreds t l => exact setPreds_n s t l
+  | setSuccs t l => exact setSuccs_n s t l
+  | prAppend t x => exact setPreds_n s t _
+  | prRemove t x =>
+    show (prRemove s t x).1.n = s.n
+    unfold prRemove; split
+    · exact setPreds_n s t _
+    · rfl
+  | suAppend t x => exact setSuccs_n s t _
+  | suRemove t x =>
+    show (suRemove s t x).1.n = s.n
+    unfold suRemove; split
+    · exact setSuccs_n s t _
+    · rfl
+  | floordiv h l => exact setChildren_n s h _
+  | lshift t l => exact setPreds_n s t _
+  | rshift t l => exact setSuccs_n s t _
+  | listLshift ts l =>
+    exact forEach_inv (fun s' => s'.n = s.n) _ ts s rfl
+      (fun s' t _ h => by show (setPreds s' t _).1.n = s.n; rw [setPreds_n]; exact h)
+  | listRshift ts l =>
+    exact forEach_inv (fun s' => s'.n = s.n) _ ts s rfl
+      (fun s' t _ h => by show (setSuccs s' t _).1.n = s.n; rw [setSuccs_n]; exact h)
+  | listSetParent ts p =>
+    exact forEach_inv (fun s' => s'.n = s.n) _ ts s rfl
+      (fun s' t _ h => by show (setParent s' t p).1.n = s.n; rw [setParent_n]; exact h)
+  | wbsRemove w t => exact wbsRemove_n s w t
+  | wbsRemoveAll w ts =>
+    exact forEach_inv (fun s' => s'.n = s.n) _ ts s rfl
+      (fun s' t _ h => by show (wbsRemove s' w t).1.n = s.n; rw [wbsRemove_n]; exact h)
+  | chRemoveAll h ts =>
+    exact forEach_inv (fun s' => s'.n = s.n) _ ts s rfl
+      (fun s' t _ hn => by show (chRemove s' h t).1.n = s.n; rw [chRemove_n]; exact hn)
 
 theorem step_Bounded (s : G) (op : Op) (hb : Bounded s) (hr : ∀ u ∈ op.allUids, u < s.n) :
     Bounded (step s op).1 := by
-  sorry
+  cases op with
+  | setParent t p =>
+    simp only [Op.allUids, List.mem_cons, Option.mem_toList] at hr
+    exact setParent_Bounded s t p hb (hr t (Or.inl rfl)) (fun q hq => hr q (Or.inr hq))
+  | setChildren h l =>
+    simp only [Op.allUids, List.mem_cons] at hr
+    exact setChildren_Bounded s h l hb (hr h (Or.inl rfl)) (fun v hv => hr v (Or.inr hv))
+  | chAppend h t =>
+    simp only [Op.allUids, List.mem_cons, List.not_mem_nil, or_false] at hr
+    exact setParent_Bounded s t (some h) hb (hr t (Or.inr rfl))
+      (fun q hq => by cases hq; exact hr h (Or.inl rfl))
+  | chRemove h t => exact chRemove_Bounded s h t hb
+  | chInsert h i t =>
+    simp only [Op.allUids, List.mem_cons, List.not_mem_nil, or_false] at hr
+    exact chInsert_Bounded s h i t hb (hr h (Or.inl rfl)) (hr t (Or.inr rfl))
+  | chMove h ts b a =>
+    simp only [Op.allUids, List.cons_append, List.mem_cons, List.mem_append] at hr
+    exact chMove_Bounded s h ts b a hb (hr h (Or.inl rfl)) (fun v hv => hr v (Or.inr (Or.inl (Or.inl hv))))
+  | chSort h keys rev =>
+    simp only [Op.allUids, List.mem_cons, List.not_mem_nil, or_false] at hr
+    exact chSort_Bounded s h _ rev hb (hr h rfl)
+  | chReorder h ids =>
+    simp only [Op.allUids, List.mem_cons, List.not_mem_nil, or_false] at hr
+    exact chReorder_Bounded s h ids hb (hr h rfl)
+  | setPreds t l =>
+    simp only [Op.allUids, List.mem_cons] at hr
+    exact setPreds_Bounded s t l hb (hr t (Or.inl rfl)) (fun v hv => hr v (Or.inr hv))
+  | setSuccs t l =>
+    simp only [Op.allUids, List.mem_cons] at hr
+    exact setSuccs_Bounded s t l hb (hr t (Or.inl rfl)) (fun v hv => hr v (Or.inr hv))
+  | prAppend t x =>
+    simp only [Op.allUids, List.mem_cons, List.not_mem_nil, or_false] at hr
+    refine setPreds_Bounded s t _ hb (hr t (Or.inl rfl)) ?_
+    intro v hv
+    rcases List.mem_append.mp hv with hv | hv
+    · exact (hb.preds t v hv).2
+    · simp only [List.mem_singleton] at hv; subst hv; exact hr v (Or.inr rfl)
+  | prRemove t x =>
+    simp only [Op.allUids, List.mem_cons, List.not_mem_nil, or_false] at hr
+    show Bounded (prRemove s t x).1
+    unfold prRemove; split
+    · exact setPreds_Bounded s t _ hb (hr t (Or.inl rfl))
+        (fun v hv => (hb.preds t v (List.mem_filter.mp hv).1).2)
+    · exact hb
+  | suAppend t x =>
+    simp only [Op.allUids, List.mem_cons, List.not_mem_nil, or_false] at hr
+    refine setSuccs_Bounded s t _ hb (hr t (Or.inl rfl)) ?_
+    intro v hv
+    rcases List.mem_append.mp hv with hv | hv
+    · exact (hb.succs t v hv).2
+    · simp only [List.mem_singleton] at hv; subst hv; exact hr v (Or.inr rfl)
+  | suRemove t x =>
+    simp only [Op.allUids, List.mem_cons, List.not_mem_nil, or_false] at hr
+    show Bounded (suRemove s t x).1
+    unfold suRemove; split
+    · exact setSuccs_Bounded s t _ hb (hr t (Or.inl rfl))
+        (fun v hv => (hb.succs t v (List.mem_filter.mp hv).1).2)
+    · exact hb
+  | floordiv h l =>
+    simp only [Op.allUids, List.mem_cons] at hr
+    refine setChildren_Bounded s h _ hb (hr h (Or.inl rfl)) ?_
+    intro v hv
+    rcases List.mem_append.mp hv with hv | hv
+    · exact (hb.children h v hv).2
+    · exact hr v (Or.inr hv)
+  | lshift t l =>
+    simp only [Op.allUids, List.mem_cons] at hr
+    refine setPreds_Bounded s t _ hb (hr t (Or.inl rfl)) ?_
+    intro v hv
+    rcases List.mem_append.mp hv with hv | hv
+    · exact (hb.preds t v hv).2
+    · exact hr v (Or.inr hv)
+  | rshift t l =>
+    simp only [Op.allUids, List.mem_cons] at hr
+    refine setSuccs_Bounded s t _ hb (hr t (Or.inl rfl)) ?_
+    intro v hv
+    rcases List.mem_append.mp hv with hv | hv
+    · exact (hb.succs t v hv).2
+    · exact hr v (Or.inr hv)
+  | listLshift ts l =>
+    simp only [Op.allUids, List.mem_append] at hr
+    refine (forEach_inv (fun s' => Bounded s' ∧ s'.n = s.n) _ ts s ⟨hb, rfl⟩ ?_).1
+    intro s' t ht ⟨hb', hn'⟩
+    refine ⟨?_, by show (setPreds s' t _).1.n = s.n; rw [setPreds_n]; exact hn'⟩
+    refine setPreds_Bounded s' t _ hb' (by rw [hn']; exact hr t (Or.inl ht)) ?_
+    intro v hv
+    rcases List.mem_append.mp hv with hv | hv
+    · exact (hb'.preds t v hv).2
+    · rw [hn']; exact hr v (Or.inr hv)
+  | listRshift ts l =>
+    simp only [Op.allUids, List.mem_append] at hr
+    refine (forEach_inv (fun s' => Bounded s' ∧ s'.n = s.n) _ ts s ⟨hb, rfl⟩ ?_).1
+    intro s' t ht ⟨hb', hn'⟩
+    refine ⟨?_, by show (setSuccs s' t _).1.n = s.n; rw [setSuccs_n]; exact hn'⟩
+    refine setSuccs_Bounded s' t _ hb' (by rw [hn']; exact hr t (Or.inl ht)) ?_
+    intro v hv
+    rcases List.mem_append.mp hv with hv | hv
+    · exact (hb'.succs t v hv).2
+    · rw [hn']; exact hr v (Or.inr hv)
+  | listSetParent ts p =>
+    simp only [Op.allUids, List.mem_append, Option.mem_toList] at hr
+    refine (forEach_inv (fun s' => Bounded s' ∧ s'.n = s.n) _ ts s ⟨hb, rfl⟩ ?_).1
+    intro s' t ht ⟨hb', hn'⟩
+    refine ⟨?_, by show (setParent s' t p).1.n = s.n; rw [setParent_n]; exact hn'⟩
+    exact setParent_Bounded s' t p hb' (by rw [hn']; exact hr t (Or.inl ht))
+      (fun q hq => by rw [hn']; exact hr q (Or.inr hq))
+  | wbsRemove w t => exact wbsRemove_Bounded s w t hb
+  | wbsRemoveAll w ts =>
+    exact forEach_inv Bounded _ ts s hb (fun s' t _ h => wbsRemove_Bounded s' w t h)
+  | chRemoveAll h ts =>
+    exact forEach_inv Bounded _ ts s hb (fun s' t _ hb' => chRemove_Bounded s' h t hb')
 
 theorem fresh_Bounded (n : Nat) (tid : Uid → Int) (hid : ∀ u, n ≤ u → tid u ≠ emptyId) :
     Bounded (fresh n tid) := by
-  sorry
+  refine ⟨?_, ?_, ?_, ?_, ?_⟩
+  · intro u p h; simp [fresh] at h
+  · intro u c h; simp [fresh] at h
+  · intro u c h; simp [fresh] at h
+  · intro u c h; simp [fresh] at h
+  · intro u w h
+    simp only [fresh] at h
+    split at h
+    next hc =>
+      cases h
+      have : u < n := by
+        apply Classical.byContradiction
+        intro hlt
+        exact hid u (Nat.le_of_not_lt hlt) (by simpa using hc)
+      exact ⟨this, this⟩
+    · cases h
 
 end Pj
